@@ -178,7 +178,8 @@ theorem unquoted_is_split_then_glob_only (env : Env) (opts : Opts) (names : List
 /-- a run without glob characters is passed through verbatim -/
 private theorem globField_plain (opts : Opts) (names : List Str) (s : Str)
     (h : Pattern.hasGlob opts.extglob s = false) : globField opts names [.split s] = some [s] := by
-  simp [globField, patExpand, requiresExpansion, toPattern, h, PatPiece.str, fieldStr, Piece.str]
+  have ht : patternText [PatPiece.pattern s] = s := by simp [patternText]
+  simp [globField, patExpand, requiresExpansion, toPattern, ht, h, PatPiece.str, fieldStr, Piece.str]
 
 private theorem globFields_plain (opts : Opts) (names : List Str) (ss : List Str)
     (h : opts.noglob = true ∨ ∀ s ∈ ss, Pattern.hasGlob opts.extglob s = false) :
@@ -268,5 +269,24 @@ theorem unquoted_words_are_runs_or_names (env : Env) (opts : Opts) (names : List
           · rcases ih o hr w hw with h | h
             · left; exact List.mem_cons_of_mem _ h
             · right; exact h
+
+/-! ## the execution context does not matter -/
+
+/-- **expansion_reads_only_visible_state** (context sweep): word expansion is a function of the word, the glob
+options, the directory and what the environment *shows* — the visible value of every name, the current positional
+parameters, IFS, HOME. Two shells that differ in anything else (a global hidden by a function's `local`, the
+caller's positional parameters under a function's own, the order or history of assignments, how deep in functions,
+subshells, `eval` or loops the word is expanded) expand it alike; and so does the same shell expanding it a second
+time after IFS was changed and restored. -/
+theorem expansion_reads_only_visible_state (e1 e2 : Env) (h : SameView e1 e2) (opts : Opts) (names : List Str)
+    (w : Word) :
+    fullExpand e1 opts names w = fullExpand e2 opts names w ∧ expandToStr e1 w = expandToStr e2 w :=
+  ⟨fullExpand_sameView e1 e2 h opts names w, expandToStr_sameView e1 e2 h w⟩
+
+/-- a function's `local x=v` over a global `x=old`: only `v` is seen -/
+example : fullExpand { vars := [("x".toList, "a b".toList), ("x".toList, "* old".toList)] } {} ["q".toList]
+      [.plain (.base (.param (.named "x".toList)))] =
+    fullExpand { vars := [("x".toList, "a b".toList)] } {} ["q".toList] [.plain (.base (.param (.named "x".toList)))] :=
+  (expansion_reads_only_visible_state _ _ (sameView_shadow {} _ _ _) _ _ _).1
 
 end BrushVerif.C04
